@@ -319,11 +319,12 @@ PROPS = {
     ),
     "C09": dict(
         level="model_checking",
-        level_text="Kani contract harnesses (crate built with --features serialize): the bytes emitted for ClientHello, ServerHello (TLS 1.0-1.2 / SSLv3 / draft-18 forms), ClientKeyExchange (opaque, DH, ECDH), Finished, HelloRequest, the ChangeCipherSpec message, SNI and max-fragment-length extensions equal an independent reference encoder's bytes (so every emitted length field equals the byte length of what it prefixes), Finished / CCS are parsed back by the body parsers, every unsupported handshake variant / message kind / extension yields GenError::NotYetImplemented. The private length helpers length_be_u16 / length_be_u24 are verified for EVERY body length up to 65535 / 70000 bytes (across the 16-bit boundary). Contents are fully symbolic; list lengths are tiny and concrete (bounded). Round trip through the parse DISPATCHERS follows by composition with the Verus units of C04/C05 (same wire format), not from a run.",
+        level_text="Kani contract harnesses (crate built with --features serialize): the bytes emitted for ClientHello, ServerHello (TLS 1.0-1.2 / SSLv3 / draft-18 forms), ClientKeyExchange (opaque, DH, ECDH), Finished, HelloRequest, the ChangeCipherSpec message, SNI and max-fragment-length extensions equal an independent reference encoder's bytes (so every emitted length field equals the byte length of what it prefixes), Finished / CCS are parsed back by the body parsers, every unsupported handshake variant / message kind / extension yields GenError::NotYetImplemented. The private length helpers length_be_u16 / length_be_u24 are verified for EVERY body length up to 65535 / 70000 bytes (across the 16-bit boundary). Contents are fully symbolic; list lengths are tiny and concrete (bounded). Round trip through the parsers follows by composition: the parser side of it - ClientHello / ServerHello for every legacy version and draft 18, ClientKeyExchange, Finished, HelloRequest decode exactly the RFC layout the reference encoder writes - is the Verus proof of units hellos / bodies, which this check runs too (the dispatcher units are run by C04/C05); the stand-in executes the round trip on 18 message shapes.",
         level_note="NOT decided: TlsPlaintext record serialization and the supported_groups extension (cookie_factory `all(iter.map(..))` exhausts CBMC memory, measured), hellos with more than 2 ciphers / 1 compression / longer session ids or extension blocks (their length fields are produced by the same helpers and `len() as u8/u16` casts, which the harness pins only for the tiny shapes). Trusted: the reference encoder in /verif/kani/ser_c09.rs (hand-written from RFC 5246 7.4 / RFC 6066).",
         technique="contract harnesses on the real serializer vs an independent reference encoder, Kani/CBMC",
         kani=[dict(quick=_SER, features=["serialize"], target="kani-serialize", timeout=900)],
-        standins=[dict(name="serializer_roundtrip", kind="bounded-execution", bound="156 handshake records of 1-2 messages from 12 shapes, the CCS record, 12 single messages, one SNI/max-fragment/groups extension list: length fields, complete parse-back, re-serialization", payload={"serializer_roundtrip_check": 1})],
+        verus=["hellos", "bodies"],
+        standins=[dict(name="serializer_roundtrip", kind="bounded-execution", bound="342 handshake records of 1-2 messages from 18 shapes (every ServerHello legacy version with and without extensions, draft 18, ClientHello SSLv3..TLS1.2), the CCS record, 18 single messages, one SNI/max-fragment/groups extension list: length fields, complete parse-back, re-serialization of the parsed value byte for byte", payload={"serializer_roundtrip_check": 1})],
         explanation="see level_text",
     ),
 }
